@@ -554,7 +554,8 @@ class C13(Prop):
                     alog.append(("call", tid, op))
                     self._do(ctx, op)
             return f
-        finished = sched.run([body(i, p) for i, p in enumerate(progs)], join_timeout=4)
+        # a real deadlock is detected by the scheduler at once (threads exit); the long join only guards a slow machine
+        finished = sched.run([body(i, p) for i, p in enumerate(progs)], join_timeout=20)
         ctx["alog"] = None
         dead = (not finished) or sched.deadlock or any(r is None or r[0] != "ok" for r in sched.results)
         snap = {"conc": True, "finished": finished, "deadlock": sched.deadlock,
